@@ -19,14 +19,20 @@ theorem simple_eff {e : Node} (hs : isSimpleTargetPart e = true) : eff e = 0 := 
 
 def SplitE (left : Node) (R : (Node × Node) × St) : Prop := eff R.1.1 + eff R.1.2 = eff left
 
+theorem eff_seqOperand (e : Node) : eff (seqOperand e) = eff e := by
+  unfold seqOperand; split <;> simp
+
 theorem hoistTargetPart_E (e : Node) (sp : Span) (s : St) : SplitE e (hoistTargetPart e sp s) := by
   unfold hoistTargetPart
   simp only [run_bind]
-  rcases getTemporalIdent_cases e [] sp .expr s with ⟨hl, h⟩ | ⟨hl, n, s', h, _⟩
-  · rw [h]; simp only [run_pure]; simp [SplitE, isLit_eff hl]
+  rcases getTemporalIdent_cases (seqOperand e) [] sp .expr s with ⟨hl, h⟩ | ⟨hl, n, s', h, _⟩
+  · rw [h]; simp only [run_pure]
+    have := isLit_eff hl
+    rw [eff_seqOperand] at this
+    simp [SplitE, eff_seqOperand, this]
   · rw [h]
     simp only [List.nil_append, List.getLast?_singleton, run_pure]
-    simp [SplitE, tempIdent, assignRight]
+    simp [SplitE, tempIdent, assignRight, eff_seqOperand]
 
 theorem splitComputedKey_E (csp : Span) (e : Node) (sp : Span) (s : St) :
     SplitE (.other "Computed" csp ["expression"] [e]) (splitComputedKey csp e sp s) := by
